@@ -1,8 +1,8 @@
 """What MANIFEST.json claims (edited by hand; bin/gen_manifest.py renders it)."""
 HOOK_COMMITS = []
 ENGINES = [
- {"name": "TV", "path": "engine/tv", "serves_properties": ["C01","C02","C05","C06","C07","C08","C09","C10","C11","C12","C13"], "kind_free_text": "real transformer on formulas with free leaves; independent FNode->z3 translation; z3 validity query per instance (all interpretations)"},
- {"name": "XH", "path": "engine/xh", "serves_properties": ["C02","C05","C08"], "kind_free_text": "CrossHair symbolic execution of the real pySMT functions with symbolic payloads/selectors (z3 per path)"},
+ {"name": "TV", "path": "engine/tv", "serves_properties": ["C01","C02","C03","C04","C05","C06","C07","C08","C09","C10","C11","C12","C13","C14","C15"], "kind_free_text": "real transformer on formulas with free leaves; independent FNode->z3 translation; z3 validity query per instance (all interpretations)"},
+ {"name": "XH", "path": "engine/xh", "serves_properties": ["C02","C03","C04","C05","C08","C14","C15","C16","C17","C18","C19","C20"], "kind_free_text": "CrossHair symbolic execution of the real pySMT functions with symbolic payloads/selectors (z3 per path)"},
  {"name": "AZ", "path": "engine/az", "serves_properties": ["C07","C13"], "kind_free_text": "Python-AST -> z3 encodings with ITE merging, regenerated from /repo source each run"},
 ]
 NOTES = "Solver-based checking of the real code; see DESIGN.md. Exit codes: 0 held, 1 reproduced unlisted violation, 2 harness error."
@@ -111,4 +111,11 @@ CHECKS.update({
          "technique": "CrossHair over a symbolic arrival schedule and fault set: the real Portfolio parent-side logic runs over in-process fakes of multiprocessing Process/Queue/Pipe; blocking reads with nothing left to deliver are reported as hangs",
          "text": "every outcome vector {verdict, unknown, crash, silent death}^members x arrival order x late-loser flag for two consecutive solves in solve/get_model/push/add/solve/pop cycles and one-shot queries (Confirmed over all paths)",
          "note": "parent side only; OS-level races between real processes are outside any symbolic engine available here (stated, not worked around)"},
+})
+
+CHECKS.update({
+ "C20": {"level": "model_checking", "engine": "XH",
+         "technique": "CrossHair over a symbolic nesting depth (2..40), sharing flag and DAG child indices: walker work-stack pops and node constructions counted from outside, interpreter recursion limit lowered around each service",
+         "text": "bounded form only: per (operator family, service) work <= 24*|DAG|+60 steps for every depth and sharing pattern in the bound (tree size up to 2^40), and no more stack at depth d than at depth 2; the unbounded clauses (depth >= 20000, asymptotic linearity) are not claimed",
+         "note": "the literal 'depth >= 20000 under the default recursion limit' is a bound-free claim outside solver-based bounded checking (stated in DESIGN.md section 4)"},
 })
